@@ -13,6 +13,17 @@ if wave:
              'earlier call or by an exception); (ii) an unusual-but-legal COMBINATION of two options or inputs; (iii) two cooperating sites\n'
              'that each look fine alone; (iv) boundary values (first/last layer, exactly equal values, one-element or empty collections,\n'
              'values exactly on a grid node or bin edge).\n')
+if wave and wave >= '3':
+    EXTRA += ('The suite is ALSO already known to catch these mechanisms, so do not use them: a cache / memo keyed on a summary of an array\n'
+              '(length, first and last value, shape) or on only part of the inputs; a scratch buffer reused between evaluations and not\n'
+              'cleared; a value frozen at construction or first use that a later setter does not refresh; in-place modification of an\n'
+              'input or of an array owned by another object; a comparison that uses a tolerance instead of equality (or min instead of\n'
+              'max); dictionary re-ordering by pop/insert; a dropped lower()/strip() normalisation.  Look for something of a different\n'
+              'nature: a wrong branch taken only for a rare-but-legal input class, an index or slice that is off only at one end, a\n'
+              'unit / log-vs-linear / wavelength-vs-wavenumber confusion on a secondary code path, an argument forwarded to the wrong\n'
+              'callee or dropped on one of several call sites, a default that differs between two entry points, an error path that\n'
+              'leaves an object half-updated, a loop that stops early or skips the last element, a sort that is not stable or is applied\n'
+              'to only some of several aligned arrays, an accumulation in the wrong dtype or with a misplaced normalisation.\n')
 print('''You are testing how well a verification suite protects a Python code base.  The code base is TauREx 3
 (exoplanet atmospheric retrieval code).  You have your own scratch git worktree of it at {wt} (a detached checkout; work ONLY there;
 never touch /repo or /verif, never read anything under /verif).  Run Python with /venv/bin/python; to make it import YOUR worktree run
